@@ -319,9 +319,9 @@ func VerifHarness_C17_TwoStep() { hPointStripes(4, 0, 0, true) }
 // One key (plus an optional single version of b), a range tombstone anywhere in the history.
 func VerifHarness_C17_RangeDel() { hStripes(2, 0, 1, false, true) }
 
-func VerifHarness_C17_RangeDel_Thorough()        { hStripes(2, 1, 2, false, true) }
-func VerifHarness_C17_RangeDel3_Thorough()       { hStripes(3, 0, 1, false, true) }
-func VerifHarness_C17_RangeDelTwoStep_Thorough() { hStripes(3, 0, 1, true, true) }
-func VerifHarness_C17_PointStripes_Thorough()    { hPointStripes(4, 0, 2, false) }
-func VerifHarness_C17_TwoKeys_Thorough()         { hPointStripes(3, 2, 1, false) }
-func VerifHarness_C17_TwoStepSnap_Thorough()     { hPointStripes(3, 1, 1, true) }
+func VerifHarness_C17_RangeDel_Deep()         { hStripes(2, 1, 2, false, true) }
+func VerifHarness_C17_RangeDel3_Thorough()    { hStripes(3, 0, 1, false, true) }
+func VerifHarness_C17_RangeDelTwoStep_Deep()  { hStripes(3, 0, 1, true, true) }
+func VerifHarness_C17_PointStripes_Thorough() { hPointStripes(4, 0, 2, false) }
+func VerifHarness_C17_TwoKeys_Thorough()      { hPointStripes(3, 2, 1, false) }
+func VerifHarness_C17_TwoStepSnap_Thorough()  { hPointStripes(3, 1, 1, true) }
